@@ -62,6 +62,13 @@ pub struct WorldCfg {
     /// C08: issue annotate / remove requests as ADD / DELETE queries when they have an equivalent one
     #[serde(default)]
     pub mutate_via_query: bool,
+    /// after the last operation: move part of the store into a sub-store, save, reload, save again (C05)
+    #[serde(default)]
+    pub substore_phase: bool,
+    /// C12: every restart also changes the performance-only settings (a store written under one
+    /// milestone interval / shrink-to-fit is read and used under another)
+    #[serde(default)]
+    pub restart_changes_knobs: bool,
 }
 
 #[derive(Clone, Debug, Serialize, Deserialize, PartialEq)]
@@ -104,6 +111,8 @@ impl Default for WorldCfg {
             query_budget: 0,
             query_flags: Vec::new(),
             mutate_via_query: false,
+            substore_phase: false,
+            restart_changes_knobs: false,
         }
     }
 }
@@ -273,6 +282,13 @@ impl World {
         let result = if let Op::Restart { format } = op {
             stats.restarts += 1;
             self.restart_count += 1;
+            if self.cfg.restart_changes_knobs {
+                let all = [0usize, 1, 2, 3, 7, 100];
+                let i = all.iter().position(|x| *x == self.cfg.milestone_interval).unwrap_or(0);
+                self.cfg.milestone_interval = all[(i + 1 + self.restart_count) % all.len()];
+                self.cfg.shrink_to_fit = !self.cfg.shrink_to_fit;
+                stats.probe("restart_under_other_knobs");
+            }
             let (res, mut v) = restart::restart(self, *format, stats);
             violations.append(&mut v);
             res
@@ -714,6 +730,19 @@ pub fn run_trace_raw(trace: &Trace) -> RunResult {
             };
         }
     }
+    if world.cfg.substore_phase && !trace.ops.is_empty() {
+        let last = trace.ops.len() - 1;
+        let phase_seed = crate::rng::label_hash("substores") ^ (world.cfg.milestone_interval as u64);
+        let v = crate::c05sub::substore_phase(&mut world, phase_seed, &mut stats);
+        if !v.is_empty() {
+            stats.final_fingerprint = world.model.fingerprint();
+            return RunResult {
+                violations: v,
+                step: Some(last),
+                stats,
+            };
+        }
+    }
     if world.cfg.validation_phase && !trace.ops.is_empty() {
         let last = trace.ops.len() - 1;
         let v = crate::c18::validation_phase(&mut world, &mut stats, last);
@@ -783,6 +812,24 @@ pub fn run_generated(run_seed: u64, profile: &dyn Fn(&mut Rng, &mut GenCfg, &mut
             return (trace, gcfg, result);
         }
     }
+    if world.cfg.substore_phase && !ops.is_empty() {
+        let last = ops.len() - 1;
+        let phase_seed = crate::rng::label_hash("substores") ^ (world.cfg.milestone_interval as u64);
+        let v = crate::c05sub::substore_phase(&mut world, phase_seed, &mut stats);
+        if !v.is_empty() {
+            stats.final_fingerprint = world.model.fingerprint();
+            let trace = Trace { world: wcfg, ops };
+            return (
+                trace,
+                gcfg,
+                RunResult {
+                    violations: v,
+                    step: Some(last),
+                    stats,
+                },
+            );
+        }
+    }
     if world.cfg.validation_phase && !ops.is_empty() {
         let last = ops.len() - 1;
         let v = crate::c18::validation_phase(&mut world, &mut stats, last);
@@ -831,6 +878,10 @@ pub fn attribute(trace: &Trace, result: RunResult) -> RunResult {
     let Some(format) = last_restart else { return result };
     // the query laws sample by step number, so the history without restarts asks other queries: no attribution
     if result.violations.iter().all(|v| v.owner == "C08" && !v.key.starts_with("via_query:")) {
+        return result;
+    }
+    // the sub-store phase at the end of a run is a round trip of its own
+    if result.violations.iter().all(|v| v.key.starts_with("substores.")) {
         return result;
     }
     let mut without = trace.clone();
